@@ -684,9 +684,9 @@ type c30Job struct {
 }
 
 type c30Env struct {
-	seeds []c30Seed
-	jobs  []*c30Job
-	nSDP  int
+	seeds  []c30Seed
+	jobs   []*c30Job
+	nSDP   int
 	cands  []c30Case // generated on first use (a restarted worker beyond them never needs them)
 	nCands int
 	// nSingles: candidate cases + single-deviation cases (phase 1); the pair cases follow (phase 2)
